@@ -48,10 +48,14 @@ WORKERS = {"quick": 1, "thorough": 14}
 
 def gen_cases(ctx):
     rng = ctx.rng
-    for i in range(ctx.scale(4500, 720000)):
+    for i in range(ctx.scale(3600, 720000)):
         c = gen_history_case(rng, max_jobs=rng.choice([2, 3, 4, 5, 6]),
                              max_machines=rng.choice([2, 3, 4, 5]))
         c["kind"] = "history"
+        # further episodes on the same dispatcher, built-in observers attached (clients of
+        # available_operations() during dispatch and reset)
+        c["episodes"] = rng.choice([1, 1, 1, 2, 3])
+        c["observers"] = rng.random() < 0.3
         yield c
 
 
@@ -136,7 +140,17 @@ def run_case(ctx, case):
     d, r = run.d, run.r
     pruned = [False]
     forms = ["function", "string", "enum", "factory", "composite"]
-    while not run.done():
+    if case.get("observers"):
+        from . import _snap
+        _snap.full_observer_set(d)
+        ctx.count("histories_with_observers_attached")
+    episodes_left = case.get("episodes", 1) - 1
+    while not run.done() or episodes_left > 0:
+        if run.done():
+            episodes_left -= 1
+            d.reset(); r.reset()
+            ctx.count("episodes_after_reset")
+            continue
         ready = r.ready()
         ctx.count("states")
         lists = [ready]
